@@ -1,7 +1,7 @@
 (* C01 property theorems (Huffman half).  Nothing but statements closed by `exact`, a pin, and
    Print Assumptions.  The driver parses this file's output. *)
 From ZV.Common Require Import Base.
-From ZV.C01 Require Import Model ModelCtx ProofsBits ProofsHuff ProofsTree ProofsIO ProofsCtx ProofsXn ProofsRefute.
+From ZV.C01 Require Import Model ModelCtx ProofsBits ProofsHuff ProofsTree ProofsIO ProofsCtx ProofsXn ProofsRefute ProofsHeap ProofsTotal ProofsRebuild.
 Open Scope N_scope.
 
 (* the byte packing loop of the encoders, read back in the decoders' bit order, gives the bits written
@@ -205,3 +205,68 @@ Proof. exact xn_refuted_single_leaf_proof. Qed.
 Check xn_refuted_single_leaf :
   exists e d b, wf_cenc e = true /\ xn_encode e 1 d = Some b /\ xn_decode_g false e 1 b (length d) <> Some d.
 Print Assumptions xn_refuted_single_leaf.
+
+(* a decoding tree is determined by its table: build_decoding_tree_from_codes(generate_codes(t)) = t
+   (the model is handed the real code table only; the tree is private in the Rust code) *)
+Theorem rebuild_tree :
+  forall t, no_hole t = true -> is_node t = true -> build_root (gen_codes t []) = Some (Some t).
+Proof. exact rebuild_tree_proof. Qed.
+Check rebuild_tree :
+  forall t, no_hole t = true -> is_node t = true -> build_root (gen_codes t []) = Some (Some t).
+Print Assumptions rebuild_tree.
+
+(* whatever order the BinaryHeap hands out nodes in (any two nodes may be merged at each step), every symbol
+   with a non-zero count gets a code *)
+Theorem from_frequencies_covers :
+  forall syms heap ht, heap_run (map Leaf syms) heap -> ht_from_heap syms heap = Some ht ->
+  forall s, In s syms -> get_code (ht_codes ht) s <> None.
+Proof. exact from_frequencies_covers_proof. Qed.
+Check from_frequencies_covers :
+  forall syms heap ht, heap_run (map Leaf syms) heap -> ht_from_heap syms heap = Some ht ->
+  forall s, In s syms -> get_code (ht_codes ht) s <> None.
+Print Assumptions from_frequencies_covers.
+
+(* HuffmanEncoder::new / from_frequencies, encode, decode: total and lossless on every payload over the symbols
+   the encoder was built for, for every heap behaviour (normal path, single symbol, 8-bit fallback) *)
+Theorem from_frequencies_roundtrip :
+  forall syms heap d, (length syms <= 256)%nat -> heap_run (map Leaf syms) heap -> (forall s, In s d -> In s syms) ->
+  exists ht b, ht_from_heap syms heap = Some ht /\ huff_encode ht d = Some b /\
+               huff_decode ht b (length d) = Some d.
+Proof. exact from_frequencies_roundtrip_proof. Qed.
+Check from_frequencies_roundtrip :
+  forall syms heap d, (length syms <= 256)%nat -> heap_run (map Leaf syms) heap -> (forall s, In s d -> In s syms) ->
+  exists ht b, ht_from_heap syms heap = Some ht /\ huff_encode ht d = Some b /\
+               huff_decode ht b (length d) = Some d.
+Print Assumptions from_frequencies_roundtrip.
+
+(* new_order1 / new_order2: the merged count of every symbol is positive unless count * 100 overflows u32 *)
+Theorem merged_freqs_cover :
+  forall c o, c * 100 < W32 -> exists f, merged_freq c o = Some f /\ 0 < f.
+Proof. exact merged_freqs_cover_proof. Qed.
+Check merged_freqs_cover :
+  forall c o, c * 100 < W32 -> exists f, merged_freq c o = Some f /\ 0 < f.
+Print Assumptions merged_freqs_cover.
+
+(* an encoder all of whose trees code every byte (what new_order1 / new_order2 build) never refuses *)
+Theorem ctx_encode_total :
+  forall e d, c_trees e <> [] -> forallb (fun p => (snd p <? length (c_trees e))%nat) (c_map e) = true ->
+  (forall ht, In ht (c_trees e) -> covers_bytes ht) -> bytes_ok d -> exists b, ctx_encode e d = Some b.
+Proof. exact ctx_encode_total_proof. Qed.
+Check ctx_encode_total :
+  forall e d, c_trees e <> [] -> forallb (fun p => (snd p <? length (c_trees e))%nat) (c_map e) = true ->
+  (forall ht, In ht (c_trees e) -> covers_bytes ht) -> bytes_ok d -> exists b, ctx_encode e d = Some b.
+Print Assumptions ctx_encode_total.
+
+(* ... and its interleaved encoder terminates and succeeds for every stream count and length *)
+Theorem xn_encode_total :
+  forall e nst d, c_order e = 1 -> c_trees e <> [] ->
+  forallb (fun p => (snd p <? length (c_trees e))%nat) (c_map e) = true ->
+  (forall ht, In ht (c_trees e) -> covers_bytes ht) -> bytes_ok d -> (1 <= nst)%nat ->
+  exists b, xn_encode e nst d = Some b.
+Proof. exact xn_encode_total_proof. Qed.
+Check xn_encode_total :
+  forall e nst d, c_order e = 1 -> c_trees e <> [] ->
+  forallb (fun p => (snd p <? length (c_trees e))%nat) (c_map e) = true ->
+  (forall ht, In ht (c_trees e) -> covers_bytes ht) -> bytes_ok d -> (1 <= nst)%nat ->
+  exists b, xn_encode e nst d = Some b.
+Print Assumptions xn_encode_total.
